@@ -233,17 +233,17 @@ GROUPS += [
     # ------------------------------------------------------------------ C04 receive path
     {
         "id": "C04.recv.v4", "property": ["C04", "C01"], "crate": "core", "stubbing": True, "cbmc_args": FS1100,
-        "harnesses": ["c04_v4_recv", "c04_v4_calc"], "jobs": 4, "timeout_s": 1500, "mem_gb": 14,
+        "harnesses": ["c04_v4_recv", "c04_v4_calc"], "jobs": 3, "timeout_s": 1500, "mem_gb": 24,
         "functions": ["net::ipv4::Ipv4::{recv_icmp_probe,extract_probe_resp,extract_probe_proto_resp,calc_udp_checksum}"],
         "stubs": [SOCK_STUB, CLOCK_STUB, "udp_ipv4_checksum -> arbitrary u16 (UDP harnesses only; C13 covers it)"],
-        "bounds": "arbitrary datagram of <= 64 (quick) / 96 (thorough) bytes, every length, ICMP/UDP/TCP x extension mode",
+        "bounds": "arbitrary datagram of <= 72 (quick) / 96 (thorough) bytes, every length, ICMP/UDP/TCP x extension mode",
     },
     {
         "id": "C04.recv.v6", "property": ["C04", "C01"], "crate": "core", "stubbing": True, "cbmc_args": FS1100,
-        "harnesses": ["c04_v6_recv"], "jobs": 4, "timeout_s": 1500, "mem_gb": 14,
+        "harnesses": ["c04_v6_recv"], "jobs": 3, "timeout_s": 1500, "mem_gb": 24,
         "functions": ["net::ipv6::Ipv6::{recv_icmp_probe,extract_probe_resp,extract_probe_proto_resp}"],
         "stubs": [SOCK_STUB, CLOCK_STUB],
-        "bounds": "arbitrary datagram of <= 64 (quick) / 96 (thorough) bytes, every length, address present / missing",
+        "bounds": "arbitrary datagram of <= 72 (quick) / 96 (thorough) bytes, every length, address present / missing",
     },
     # ------------------------------------------------------------------ C11 / C13 / C19 dispatch
     {
